@@ -7,6 +7,7 @@ import (
 	"fmt"
 	"reflect"
 	"runtime"
+	"runtime/debug"
 	"strconv"
 	"strings"
 	"sync"
@@ -166,11 +167,17 @@ var c11Extra = []struct {
 	// a skip beyond the bottom of the stack selects no frame: the location is empty, in both modes
 	{"record-skip-beyond-stack", func(s *site) { s.want = ":0"; log.Record(s.ctx, log.WarnLevel, s.tag, 200, log.Msg(s.id)) }},
 	{"record-skip-huge", func(s *site) { s.want = ":0"; log.Record(s.ctx, log.WarnLevel, s.tag, 1<<40, log.Msg(s.id)) }},
+	// the last record of a case carries a real location: whatever the next case (possibly with the lookup off) recycles is not blank
+	{"last-located", func(s *site) { notInlined(s) }},
 }
 
 // Case: "<enableCaller 0|1> <fastCaller 0|1> <repeat>"
 // Observation: one token per (shape x entry point x repetition): "<name>=ok" or "<name>=got<file:line>,want<file:line>"
 func runC11(cases []string, out *bufio.Writer, _ []string) {
+	// no garbage collection and a single P in this (small) family: recycled events and buffers then really are the ones an earlier
+	// configuration used (sync.Pool keeps them per P and drops them at a collection)
+	defer debug.SetGCPercent(debug.SetGCPercent(-1))
+	defer runtime.GOMAXPROCS(runtime.GOMAXPROCS(1))
 	tag := log.RegisterTag("_c11_probe")
 	ctx := context.Background()
 	for _, line := range cases {
